@@ -279,7 +279,7 @@ impl Prop for C14 {
         "each evaluation = one crash point: a strict prefix (length n in 0..len-1, ALL n per archive) of an archive produced by a fault-free simulated create, placed on the sim disk and opened by Archive::open (reader) and Decompressor::open under catch_unwind with work counters and an allocation tripwire armed; verdict must be Err. Archives are sampled (seeded small workloads incl. >50 samples), prefixes per archive are enumerated completely, in both the fast and the overflow-checked build. distinct_nontrivial = distinct (archive digest, n) pairs."
     }
     fn runs(&self, tier: Tier) -> u64 {
-        match tier { Tier::Quick => 9_000, Tier::Thorough => 200_000 }
+        match tier { Tier::Quick => 7_000, Tier::Thorough => 200_000 }
     }
     fn profiles(&self) -> Vec<&'static str> { vec!["fast", "checked"] }
     fn run_chunk(&self, ctx: &Ctx, indices: &[u64]) -> Vec<RunReport> {
